@@ -186,6 +186,11 @@ pub fn check_doc(v: &RVal, acc: &mut Acc, ext: bool) {
                 acc.vio("Value::array_length:wrong", || json!({"ctx": ctxv(), "observed": r}));
             }
         }
+        if let Some(r) = g!("LazyValue::array_length", (jsonb::LazyValue::from(tree.clone()).array_length(), jsonb::parse_lazy_value(&b).ok().and_then(|l| l.array_length()))) {
+            if r != (ops::array_length(v), ops::array_length(v)) {
+                acc.vio("LazyValue::array_length:wrong", || json!({"ctx": ctxv(), "observed": format!("{:?}", r)}));
+            }
+        }
         if let Some(r) = g!("Value::object_keys", tree.object_keys().map(|k| k.to_vec())) {
             sub_ok("Value::object_keys", &r, &ops::object_keys(v), acc, &ctxv);
         }
